@@ -1,4 +1,5 @@
 SPECIFICATION Spec
-CONSTANTS MaxWrites = 3 MaxPolls = 3 BumpInsideLock = TRUE
+CONSTANTS MaxWrites = 3 MaxPolls = 3 TwoLoads = FALSE
+  BumpInsideLock = TRUE
 INVARIANTS RidCounts NewAfterReport
 PROPERTIES ToldIffWrites GlobalIffWrites
